@@ -209,6 +209,13 @@ impl RawConn {
         }
         Ok(())
     }
+    pub fn set_write_timeout(&mut self, d: Duration) {
+        let d = Some(d.max(Duration::from_millis(1)));
+        let _ = match &mut self.s {
+            Sock::Unix(u) => u.set_write_timeout(d),
+            Sock::Tcp(t) => t.set_write_timeout(d),
+        };
+    }
     pub fn shutdown_write(&mut self) {
         let _ = match &mut self.s {
             Sock::Unix(u) => u.shutdown(Shutdown::Write),
